@@ -14,70 +14,71 @@ Section Char.
         ((s = i /\ cur = None) \/ (i < s /\ p (s - 1) = false)) /\ (e = i + Z.of_nat n \/ p e = false)).
 
   Ltac rs := repeat match goal with |- _ /\ _ => split end.
+  Ltac pforall :=
+    match goal with |- forall j, _ -> p j = true =>
+      let j := fresh "j" in let Hj := fresh "Hj" in intros j Hj;
+      first [ lia
+            | match goal with H : forall k, _ -> p k = true |- _ => apply H; lia end
+            | match goal with Hi : p ?i = true |- _ =>
+                destruct (Z.eq_dec j i) as [->|]; [exact Hi|match goal with H : forall k, _ -> p k = true |- _ => apply H; lia end] end ] end.
+  Ltac pfalse :=
+    match goal with |- p ?b = false =>
+      first [assumption | match goal with H : p ?a = false |- _ => replace b with a by lia; exact H end] end.
+  Ltac pdisj :=
+    first [ left; lia | right; pfalse | left; split; [lia|reflexivity] | right; split; [lia|pfalse] | left; split; reflexivity ].
+  Ltac pd2 :=
+    match goal with
+    | H : _ \/ p ?e = false |- _ \/ p ?e = false => destruct H; [left; lia|right; assumption]
+    end.
+  Ltac one := first [lia | reflexivity | assumption | congruence | pforall | pd2 | pdisj | pfalse].
+  Ltac fin := rs; one.
 
   Lemma runs_G : forall n i cur s e, In (s, e) (runs (pvals p i n) i cur) <-> G n i cur s e.
   Proof.
     induction n as [|n IH]; intros i cur s e.
     - cbn [pvals runs]. unfold G. destruct cur as [s0|]; cbn [In].
       + split.
-        * intros [[= <- <-]|[]]. left. rs; try lia. intros j Hj; lia.
+        * intros [[= <- <-]|[]]. left. fin.
         * intros [(Hc & H1 & H2 & _)|(H1 & H2 & H3 & _)]; [|lia]. injection Hc as <-. left. f_equal. lia.
       + split; [intros []|]. intros [(Hc & _)|(H1 & H2 & H3 & _)]; [discriminate|lia].
     - cbn [pvals runs]. destruct (p i) eqn:Hpi.
       + rewrite IH. unfold G. rewrite Nat2Z.inj_succ. destruct cur as [s0|].
         * split.
           -- intros [(Hc & H1 & H2 & H3 & H4)|(H1 & H2 & H3 & H4 & H5 & H6)].
-             ++ left. split; [exact Hc|]. rs; try lia.
-                ** intros j Hj. destruct (Z.eq_dec j i) as [->|]; [exact Hpi|apply H3; lia].
-                ** destruct H4; [left; lia|now right].
-             ++ right. rs; try lia; [exact H4| |destruct H6; [left; lia|now right]].
-                destruct H5 as [[_ Hn]|H5]; [discriminate|right; split; [lia|apply H5]].
+             ++ left. fin.
+             ++ destruct H5 as [[_ Hn]|[H5 H5']]; [discriminate|]. right. fin.
           -- intros [(Hc & H1 & H2 & H3 & H4)|(H1 & H2 & H3 & H4 & H5 & H6)].
-             ++ left. split; [exact Hc|].
-                assert (e <> i) by (intros ->; destruct H4 as [H4|H4]; [lia|congruence]).
-                rs; try lia; [intros j Hj; apply H3; lia|destruct H4; [left; lia|now right]].
+             ++ assert (e <> i) by (intros ->; destruct H4 as [H4|H4]; [lia|congruence]). left. fin.
              ++ destruct H5 as [[_ Hn]|[H5 H5']]; [discriminate|].
                 assert (s <> i + 1) by (intros ->; replace (i + 1 - 1) with i in H5' by lia; congruence).
-                right. rs; try lia; [exact H4|right; split; [lia|exact H5']|destruct H6; [left; lia|now right]].
+                right. fin.
         * split.
           -- intros [(Hc & H1 & H2 & H3 & H4)|(H1 & H2 & H3 & H4 & H5 & H6)].
-             ++ injection Hc as <-. right. rs; try lia.
-                ** intros j Hj. destruct (Z.eq_dec j i) as [->|]; [exact Hpi|apply H3; lia].
-                ** left; split; reflexivity.
-                ** destruct H4; [left; lia|now right].
-             ++ destruct H5 as [[_ Hn]|[H5 H5']]; [discriminate|].
-                right. rs; try lia; [exact H4|right; split; [lia|exact H5']|destruct H6; [left; lia|now right]].
+             ++ injection Hc as <-. right. fin.
+             ++ destruct H5 as [[_ Hn]|[H5 H5']]; [discriminate|]. right. fin.
           -- intros [(Hc & _)|(H1 & H2 & H3 & H4 & H5 & H6)]; [discriminate|].
              destruct H5 as [[-> _]|[H5 H5']].
-             ++ left. split; [reflexivity|]. rs; try lia; [intros j Hj; apply H4; lia|destruct H6; [left; lia|now right]].
+             ++ left. fin.
              ++ assert (s <> i + 1) by (intros ->; replace (i + 1 - 1) with i in H5' by lia; congruence).
-                right. rs; try lia; [exact H4|right; split; [lia|exact H5']|destruct H6; [left; lia|now right]].
+                right. fin.
       + unfold G at 1. rewrite Nat2Z.inj_succ. destruct cur as [s0|].
         * cbn [In]. rewrite IH. unfold G. split.
           -- intros [[= <- <-]|[(Hc & _)|(H1 & H2 & H3 & H4 & H5 & H6)]]; [| discriminate |].
-             ++ left. rs; try lia; [intros j Hj; lia|now right].
-             ++ destruct H5 as [[-> _]|[H5 H5']].
-                ** right. rs; try lia; [exact H4|right; split; [lia|replace (i + 1 - 1) with i by lia; exact Hpi]|destruct H6; [left; lia|now right]].
-                ** right. rs; try lia; [exact H4|right; split; [lia|exact H5']|destruct H6; [left; lia|now right]].
+             ++ left. fin.
+             ++ destruct H5 as [[-> _]|[H5 H5']]; right; fin.
           -- intros [(Hc & H1 & H2 & H3 & H4)|(H1 & H2 & H3 & H4 & H5 & H6)].
              ++ injection Hc as <-. left. f_equal.
                 destruct (Z.eq_dec e i) as [|Hne]; [congruence|]. exfalso.
                 assert (p i = true) by (apply H3; lia). congruence.
-             ++ destruct H5 as [[_ Hn]|[H5 H5']]; [discriminate|].
-                right. right.
-                assert (s <> i) by lia.
-                rs; try lia; [exact H4| |destruct H6; [left; lia|now right]].
-                destruct (Z.eq_dec s (i + 1)) as [->|]; [left; split; reflexivity|right; split; [lia|exact H5']].
+             ++ destruct H5 as [[_ Hn]|[H5 H5']]; [discriminate|]. right. right.
+                destruct (Z.eq_dec s (i + 1)) as [->|]; fin.
         * rewrite IH. unfold G. split.
           -- intros [(Hc & _)|(H1 & H2 & H3 & H4 & H5 & H6)]; [discriminate|].
-             destruct H5 as [[-> _]|[H5 H5']].
-             ++ right. rs; try lia; [exact H4|right; split; [lia|replace (i + 1 - 1) with i by lia; exact Hpi]|destruct H6; [left; lia|now right]].
-             ++ right. rs; try lia; [exact H4|right; split; [lia|exact H5']|destruct H6; [left; lia|now right]].
+             destruct H5 as [[-> _]|[H5 H5']]; right; fin.
           -- intros [(Hc & _)|(H1 & H2 & H3 & H4 & H5 & H6)]; [discriminate|].
              destruct H5 as [[-> _]|[H5 H5']].
              ++ exfalso. assert (p i = true) by (apply H4; lia). congruence.
-             ++ right. rs; try lia; [exact H4| |destruct H6; [left; lia|now right]].
-                destruct (Z.eq_dec s (i + 1)) as [->|]; [left; split; reflexivity|right; split; [lia|exact H5']].
+             ++ right. destruct (Z.eq_dec s (i + 1)) as [->|]; fin.
   Qed.
 
   Theorem runs_char a n s e :
@@ -85,9 +86,8 @@ Section Char.
   Proof.
     rewrite runs_G. unfold G, maximal_run. split.
     - intros [(Hc & _)|(H1 & H2 & H3 & H4 & H5 & H6)]; [discriminate|].
-      rs; try lia; [exact H4| |exact H6].
-      destruct H5 as [[-> _]|[_ H5]]; [now left|now right].
-    - intros (H1 & H2 & H3 & H4 & H5 & H6). right. rs; try lia; [exact H4| |exact H6].
+      rs; try lia; try assumption. destruct H5 as [[-> _]|[_ H5]]; [now left|now right].
+    - intros (H1 & H2 & H3 & H4 & H5 & H6). right. rs; try lia; try assumption.
       destruct (Z.eq_dec s a) as [->|]; [left; split; reflexivity|right; split; [lia|]].
       destruct H5; [lia|assumption].
   Qed.
